@@ -1,12 +1,248 @@
-"""Probes of the selection family (FLP / MCP / DPP+MDPP): the termination comparison `i >= quota - 1`
-of each `_step`.  The Lean models take the operator from `Params.<name>`; the C08/C02 theorems need it
-to be `.ge` (the instance proofs unfold it), so flipping it in the source breaks the proofs."""
+"""Probes of the selection family (FLP / MCP / DPP+MDPP).
+
+Every decision-critical operator / constant / index expression of `_reset`, `_step` and `_get_reward` that
+the Lean models take as a parameter (`Rl4co.Params.<name>`); each is unfolded by a proof (listed in the
+doc string), so a one-token source edit breaks a proof obligation at `lake build`.  A probe that does
+not find its statement shape returns None (pattern-miss → committed default, never an alarm).
+"""
+import ast
+
+FLP = "rl4co/envs/graph/flp/env.py"
+MCP = "rl4co/envs/graph/mcp/env.py"
+DPP = "rl4co/envs/eda/dpp/env.py"
+MDPP = "rl4co/envs/eda/mdpp/env.py"
 
 
 def register(ex):
-    ex.probe("flpDoneCmp", "Cmp", ".ge", "flp/env.py:_step  `td['i'] >= td['to_choose'] - 1`",
-             ex.cmp_probe("rl4co/envs/graph/flp/env.py", "FLPEnv._step", "td['i']", "td['to_choose'] - 1"))
-    ex.probe("mcpDoneCmp", "Cmp", ".ge", "mcp/env.py:_step  `td['i'] >= td['n_sets_to_choose'] - 1`",
-             ex.cmp_probe("rl4co/envs/graph/mcp/env.py", "MCPEnv._step", "td['i']", "td['n_sets_to_choose'] - 1"))
-    ex.probe("dppDoneCmp", "Cmp", ".ge", "dpp/env.py:_step  `td['i'] >= self.max_decaps - 1`",
-             ex.cmp_probe("rl4co/envs/eda/dpp/env.py", "DPPEnv._step", "td['i']", "self.max_decaps - 1"))
+    def fn_of(rel, qual):
+        tree = ex.parse(rel)
+        return ex.find_function(tree, qual) if tree else None
+
+    # ---- termination test `td["i"] >= <quota> - 1` : operator and offset --------------------------------
+    def done_parts(rel, qual, quota_txt):
+        f = fn_of(rel, qual)
+        if f is None:
+            return None
+        q = quota_txt.replace(" ", "").replace('"', "'")
+        hits = []
+        for n in ast.walk(f):
+            if isinstance(n, ast.Compare) and len(n.ops) == 1 and type(n.ops[0]) in ex.CMP and ex.norm(n.left) == "td['i']":
+                r = n.comparators[0]
+                if isinstance(r, ast.BinOp) and isinstance(r.op, ast.Sub) and ex.norm(r.left) == q \
+                        and isinstance(r.right, ast.Constant) and isinstance(r.right.value, int):
+                    hits.append((ex.CMP[type(n.ops[0])], r.right.value))
+                elif ex.norm(r) == q:
+                    hits.append((ex.CMP[type(n.ops[0])], 0))
+        return hits[0] if len(hits) == 1 else None
+
+    def done_cmp(rel, qual, quota_txt):
+        def run():
+            h = done_parts(rel, qual, quota_txt)
+            return "." + h[0] if h else None
+        return run
+
+    def done_off(rel, qual, quota_txt):
+        def run():
+            h = done_parts(rel, qual, quota_txt)
+            return str(h[1]) if h else None
+        return run
+
+    for nm, rel, qual, qt, src in [("flp", FLP, "FLPEnv._step", "td['to_choose']", "flp/env.py"),
+                                   ("mcp", MCP, "MCPEnv._step", "td['n_sets_to_choose']", "mcp/env.py"),
+                                   ("dpp", DPP, "DPPEnv._step", "self.max_decaps", "dpp/env.py")]:
+        ex.probe(f"{nm}DoneCmp", "Cmp", ".ge", f"{src}:_step  `td['i'] >= {qt} - 1` (operator; unfolded by `{nm.capitalize()}.view.step_done`)",
+                 done_cmp(rel, qual, qt))
+        ex.probe(f"{nm}DoneOffset", "Int", "1", f"{src}:_step  `td['i'] >= {qt} - 1` (the constant; unfolded by `{nm.capitalize()}.view.step_done`)",
+                 done_off(rel, qual, qt))
+
+    # ---- FLP: which axis the gathered rows are reduced over, and which axis is gathered -------------------
+    def call_int_arg(rel, qual, method, kw, pos):
+        """integer argument (`kw=` or positional index `pos`) of the single call `.method(...)` in `qual`"""
+        def run():
+            f = fn_of(rel, qual)
+            if f is None:
+                return None
+            hits = []
+            for n in ast.walk(f):
+                if isinstance(n, ast.Call) and isinstance(n.func, ast.Attribute) and n.func.attr == method:
+                    v = None
+                    for k in n.keywords:
+                        if k.arg == kw and isinstance(k.value, ast.Constant):
+                            v = k.value.value
+                    if v is None and len(n.args) > pos and isinstance(n.args[pos], ast.Constant):
+                        v = n.args[pos].value
+                    if isinstance(v, int):
+                        hits.append(v)
+            return str(hits[0]) if len(hits) == 1 else None
+        return run
+
+    ex.probe("flpStepMinDim", "Nat", "1", "flp/env.py:_step  `.view(B, -1, n).min(dim=1)` — axis of the gathered rows "
+             "(unfolded by `Flp.curMin_eq_nearest`)", call_int_arg(FLP, "FLPEnv._step", "min", "dim", 0))
+    ex.probe("flpRewardMinDim", "Nat", "1", "flp/env.py:_get_reward  `.view(B, -1, n).min(1)` (unfolded by `Flp.rewardMin_eq_nearest`)",
+             call_int_arg(FLP, "FLPEnv._get_reward", "min", "dim", 0))
+
+    def gather_dim(qual):
+        def run():
+            f = fn_of(FLP, qual)
+            if f is None:
+                return None
+            hits = []
+            for n in ast.walk(f):
+                if isinstance(n, ast.Call) and ex.norm(n.func) == "gather_by_index" and n.args \
+                        and ex.norm(n.args[0]) == "orig_distances":
+                    v = 1  # default of gather_by_index
+                    for k in n.keywords:
+                        if k.arg == "dim":
+                            v = k.value.value if isinstance(k.value, ast.Constant) else None
+                    if len(n.args) > 2:
+                        v = n.args[2].value if isinstance(n.args[2], ast.Constant) else None
+                    hits.append(v)
+            return str(hits[0]) if len(hits) == 1 and isinstance(hits[0], int) else None
+        return run
+
+    ex.probe("flpStepGatherDim", "Nat", "1", "flp/env.py:_step  `gather_by_index(orig_distances, idx)` gathers ROWS (dim=1) of the "
+             "chosen facilities (unfolded by `Flp.curMin_eq_nearest`)", gather_dim("FLPEnv._step"))
+    ex.probe("flpRewardGatherDim", "Nat", "1", "flp/env.py:_get_reward  `gather_by_index(orig_distances, idx)` (unfolded by "
+             "`Flp.rewardMin_eq_nearest`)", gather_dim("FLPEnv._get_reward"))
+
+    # ---- MCP: item ids are 1-based: column 0 of the scatter target is dropped ----------------------------
+    def slice_lower(qual):
+        def run():
+            f = fn_of(MCP, qual)
+            if f is None:
+                return None
+            hits = []
+            for n in ast.walk(f):
+                if isinstance(n, ast.Assign) and len(n.targets) == 1 and ex.norm(n.targets[0]) == "chosen_items" \
+                        and isinstance(n.value, ast.Subscript) and ex.norm(n.value.value) == "chosen_items":
+                    sl = n.value.slice
+                    if isinstance(sl, ast.Tuple) and len(sl.elts) == 2 and isinstance(sl.elts[1], ast.Slice):
+                        lo, hi = sl.elts[1].lower, sl.elts[1].upper
+                        if hi is None and isinstance(lo, ast.Constant) and isinstance(lo.value, int):
+                            hits.append(lo.value)
+                        elif hi is None and lo is None:
+                            hits.append(0)
+            return str(hits[0]) if len(hits) == 1 else None
+        return run
+
+    ex.probe("mcpStepItemOffset", "Nat", "1", "mcp/env.py:_step  `chosen_items = chosen_items[:, 1:]` — id `x+1` ↔ index `x` "
+             "(unfolded by `Mcp.coveredBy_iff`)", slice_lower("MCPEnv._step"))
+    ex.probe("mcpRewardItemOffset", "Nat", "1", "mcp/env.py:_get_reward  `chosen_items = chosen_items[:, 1:]` (unfolded by "
+             "`Mcp.coveredByR_iff`)", slice_lower("MCPEnv._get_reward"))
+
+    # ---- MCP: membership rows of the chosen sets are zeroed (the remaining sets keep theirs) -------------
+    def mcp_membership_mask():
+        f = fn_of(MCP, "MCPEnv._step")
+        if f is None:
+            return None
+        hits = []
+        for n in ast.walk(f):
+            if isinstance(n, ast.Assign) and len(n.targets) == 1 and ex.norm(n.targets[0]) == "remaining_membership" \
+                    and isinstance(n.value, ast.BinOp) and isinstance(n.value.op, ast.Mult):
+                l = ex.norm(n.value.left)
+                if l == "remaining_sets.unsqueeze(-1)":
+                    hits.append("true")
+                elif l == "chosen.unsqueeze(-1)":
+                    hits.append("false")
+        # and `remaining_sets = ~chosen`
+        neg = [n for n in ast.walk(f) if isinstance(n, ast.Assign) and len(n.targets) == 1
+               and ex.norm(n.targets[0]) == "remaining_sets"]
+        if len(neg) != 1 or len(hits) != 1:
+            return None
+        v = neg[0].value
+        if isinstance(v, ast.UnaryOp) and isinstance(v.op, ast.Invert) and ex.norm(v.operand) == "chosen":
+            return hits[0]
+        if ex.norm(v) == "chosen":
+            return "false" if hits[0] == "true" else "true"
+        return None
+
+    ex.probe("mcpKeepRemainingRows", "Bool", "true", "mcp/env.py:_step  `remaining_membership = (~chosen).unsqueeze(-1) * membership` "
+             "(unfolded by `Mcp.inv2_of_run`)", mcp_membership_mask)
+
+    # ---- DPP / MDPP: mask construction -------------------------------------------------------------------
+    def dict_value_negated(rel, qual, key, operand):
+        """is the dict entry `key: ~operand` (true) or `key: operand` (false)?"""
+        def run():
+            f = fn_of(rel, qual)
+            if f is None:
+                return None
+            hits = []
+            for n in ast.walk(f):
+                if isinstance(n, ast.Dict):
+                    for k, v in zip(n.keys, n.values):
+                        if isinstance(k, ast.Constant) and k.value == key:
+                            if isinstance(v, ast.UnaryOp) and isinstance(v.op, ast.Invert) and ex.norm(v.operand) == operand:
+                                hits.append("true")
+                            elif ex.norm(v) == operand:
+                                hits.append("false")
+            return hits[0] if len(hits) == 1 else None
+        return run
+
+    ex.probe("dppKeepoutNegated", "Bool", "true", "dpp/env.py:_reset  `\"keepout\": ~td[\"action_mask\"]` (unfolded by `Dpp.keepout_const`)",
+             dict_value_negated(DPP, "DPPEnv._reset", "keepout", "td['action_mask']"))
+
+    def mdpp_probe_negated():
+        f = fn_of(MDPP, "MDPPEnv._reset")
+        if f is None:
+            return None
+        hits = []
+        for n in ast.walk(f):
+            if isinstance(n, ast.Call) and ex.norm(n.func) == "torch.logical_and" and len(n.args) == 2 \
+                    and ex.norm(n.args[0]) == "td_reset['action_mask']":
+                a = n.args[1]
+                if isinstance(a, ast.UnaryOp) and isinstance(a.op, ast.Invert) and ex.norm(a.operand) == "td_reset['probe']":
+                    hits.append("true")
+                elif ex.norm(a) == "td_reset['probe']":
+                    hits.append("false")
+        return hits[0] if len(hits) == 1 else None
+
+    ex.probe("mdppResetProbeNegated", "Bool", "true", "mdpp/env.py:_reset  `logical_and(action_mask, ~probe)` (unfolded by "
+             "`Dpp.allowed0_eq_spec`)", mdpp_probe_negated)
+
+    def dpp_scatter_value():
+        f = fn_of(DPP, "DPPEnv._step")
+        if f is None:
+            return None
+        hits = []
+        for n in ast.walk(f):
+            if isinstance(n, ast.Call) and isinstance(n.func, ast.Attribute) and n.func.attr == "scatter" \
+                    and ex.norm(n.func.value) == "td['action_mask']" and len(n.args) == 3 \
+                    and isinstance(n.args[2], ast.Constant):
+                v = n.args[2].value
+                if v in (0, False):
+                    hits.append("false")
+                elif v in (1, True):
+                    hits.append("true")
+        return hits[0] if len(hits) == 1 else None
+
+    ex.probe("dppScatterValue", "Bool", "false", "dpp/env.py:_step  `action_mask.scatter(-1, a, 0)` — the placed cell is CLEARED "
+             "(unfolded by `Dpp.view.step_am`)", dpp_scatter_value)
+
+    # ---- generator defaults that the "generated instances are solvable" chain depends on -------------------
+    def int_default(rel, cls, arg):
+        def run():
+            tree = ex.parse(rel)
+            fn = ex.find_function(tree, f"{cls}.__init__") if tree else None
+            if fn is None:
+                return None
+            a = fn.args
+            defaults = [None] * (len(a.args) - len(a.defaults)) + list(a.defaults)
+            for p, d in list(zip(a.args, defaults)) + list(zip(a.kwonlyargs, a.kw_defaults)):
+                if p.arg == arg and isinstance(d, ast.Constant) and isinstance(d.value, int) and not isinstance(d.value, bool):
+                    return str(d.value)
+            return None
+        return run
+
+    FG, MG = "rl4co/envs/graph/flp/generator.py", "rl4co/envs/graph/mcp/generator.py"
+    DG, MDG = "rl4co/envs/eda/dpp/generator.py", "rl4co/envs/eda/mdpp/generator.py"
+    for name, rel, cls, arg, dflt in [
+        ("genFlpNumLoc", FG, "FLPGenerator", "num_loc", 100), ("genFlpToChoose", FG, "FLPGenerator", "to_choose", 10),
+        ("genMcpNumSets", MG, "MCPGenerator", "num_sets", 100), ("genMcpNumItems", MG, "MCPGenerator", "num_items", 200),
+        ("genMcpNSetsToChoose", MG, "MCPGenerator", "n_sets_to_choose", 10),
+        ("genDppMaxDecaps", DG, "DPPGenerator", "max_decaps", 20), ("genDppNumKeepoutMax", DG, "DPPGenerator", "num_keepout_max", 50),
+        ("genMdppMaxDecaps", MDG, "MDPPGenerator", "max_decaps", 20), ("genMdppNumKeepoutMax", MDG, "MDPPGenerator", "num_keepout_max", 50),
+        ("genMdppNumProbesMax", MDG, "MDPPGenerator", "num_probes_max", 5),
+    ]:
+        ex.probe(name, "Nat", str(dflt), f"{rel.split('envs/')[1]}:{cls}.__init__ default `{arg}` (obligation "
+                 f"`Rl4co.{'Flp' if 'Flp' in name else 'Mcp' if 'Mcp' in name else 'Dpp'}.gen_defaults_wf`)",
+                 int_default(rel, cls, arg))
